@@ -125,7 +125,7 @@ class TCBase(Contract):
         ]
         # completeness: every placement that is valid for each task and satisfies the documented
         # relation is admitted by what initialize() asserts (auxiliary unknowns by witness)
-        valid = [valid_placement(t, i + 1, hz, H) for i, t in enumerate(tasks)]
+        valid = [valid_placement(t, i + 1, hz, H) for i, t in enumerate(tasks)] + [hz >= 0, hz <= T(H)]
         goal = And(*A)
         wit = self.aux_witness(P, ctx, case)
         if wit:
@@ -337,6 +337,8 @@ class TasksContiguous(ListBase):
                 cs.append(
                     Implies(And(pos[i], pos[j], tasks[i]._start < tasks[j]._start, Not(Or(*between))), tasks[j]._start == tasks[i]._end)
                 )
+                # a chain: no two scheduled tasks start together
+                cs.append(Implies(And(pos[i], pos[j]), tasks[i]._start != tasks[j]._start))
         # the statement is about scheduled tasks only; with zero-length tasks in the list nothing is claimed
         allpos = And(*[Implies(spec.sched(t), t._end > t._start) for t in tasks])
         return Implies(allpos, And(*cs))
